@@ -124,7 +124,15 @@ def build(path, defi, rep, splits, opt_list, opt_elem, maxd, version=1, encs=Non
         f.write(bytes(data))
 
 
-def build_two_lists(path, rows_a, opt_list_a, opt_elem_a, rows_b, opt_list_b, opt_elem_b):
+def _plain_bools(vals):
+    out = bytearray((len(vals) + 7) // 8)
+    for i, v in enumerate(vals):
+        if v:
+            out[i // 8] |= 1 << (i % 8)
+    return bytes(out)
+
+
+def build_two_lists(path, rows_a, opt_list_a, opt_elem_a, rows_b, opt_list_b, opt_elem_b, boolean=False):
     """two LIST<INT64> columns a, b (v1 pages, PLAIN values, one page each); rows are lists of ints (no NULLs stored:
     only the schema's nullabilities differ)"""
     from fastparquet import parquet_thrift as pt
@@ -139,20 +147,21 @@ def build_two_lists(path, rows_a, opt_list_a, opt_elem_a, rows_b, opt_list_b, op
                 rep.append(0 if j == 0 else 1)
                 vals.append(v)
         start = len(data)
-        body = _levels(rep, 1) + _levels(defi, max(maxd, 1).bit_length()) + b"".join(struct.pack("<q", v) for v in vals)
+        body = _levels(rep, 1) + _levels(defi, max(maxd, 1).bit_length()) + (
+            _plain_bools(vals) if boolean else b"".join(struct.pack("<q", v) for v in vals))
         ph = pt.PageHeader(type=0, uncompressed_page_size=len(body), compressed_page_size=len(body),
                            data_page_header=pt.DataPageHeader(num_values=len(defi), encoding=0,
                                                               definition_level_encoding=3,
                                                               repetition_level_encoding=3, i32=1), i32=1)
         data += bytes(ph.to_bytes()) + body
         size = len(data) - start
-        md = pt.ColumnMetaData(type=2, encodings=[0, 3], path_in_schema=[name, "list", "element"], codec=0,
-                               num_values=len(defi), total_uncompressed_size=size, total_compressed_size=size,
-                               data_page_offset=start)
+        md = pt.ColumnMetaData(type=0 if boolean else 2, encodings=[0, 3], path_in_schema=[name, "list", "element"],
+                               codec=0, num_values=len(defi), total_uncompressed_size=size,
+                               total_compressed_size=size, data_page_offset=start)
         chunks.append(pt.ColumnChunk(file_offset=start, meta_data=md))
         schema += [pt.SchemaElement(name=name, num_children=1, repetition_type=1 if ol else 0, converted_type=3),
                    pt.SchemaElement(name="list", num_children=1, repetition_type=2),
-                   pt.SchemaElement(name="element", type=2, repetition_type=1 if oe else 0)]
+                   pt.SchemaElement(name="element", type=0 if boolean else 2, repetition_type=1 if oe else 0)]
     rg = pt.RowGroup(columns=chunks, total_byte_size=len(data) - 4, num_rows=len(rows_a))
     fmd = pt.FileMetaData(version=1, schema=schema, num_rows=len(rows_a), row_groups=[rg],
                           created_by="spec-level builder", i32list=[1])
